@@ -359,6 +359,7 @@ def C12(tier):
                      bounds="all canonical connected simple edge lists N<=%d M<=%d x {SinkColoring,VAlign,PackRight} x {NS,LP}, polyline; symbolic widths in [0,64], "
                             "NodeSpacing in [1,64] (zero heights so that route points lie on the bands)" % (N, M)),
            crossing_kernel_ob(tier),
+           wmedian_kernel_ob(tier),
            layout_ob("layout-crossings-70-layers", "Harness_E_C12", many_layer_shapes(), {"P2": [0, 1], "P4": [4, 1]},
                      consts={"P1": 1, "P5": 2, "SZ": 0, "NSFIX": 10, "LSFIX": 1}, loop=8192, depth=300, enctimeout=200, validate_cubes=1,
                      bounds="two graphs with 70 layers (two parallel 70-node paths, a crossing edge pair at layers 65/66 or 66/67, a third node in one layer): the "
@@ -389,6 +390,24 @@ def crossing_kernel_ob(tier):
     return dict(name="crossing-counter-kernel", pkg="internal/phase3", func="Harness_CountCrossings", consts={}, cubes=cubes, enctimeout=200, qtimeout=100,
                 bounds="real countCrossings vs naive pair count on three consecutive layers of up to %s nodes with simple edge sets (cubes); symbolic: the in-layer order of "
                        "every layer (solver-chosen permutation) and the index of the first layer in 0..100 (the counter filters edges by layer index); panic sites included" % nm(q, "3/3/2", "4/4/3"))
+
+
+def wmedian_kernel_ob(tier):
+    cubes = []
+    base = layered_cubes("thorough")
+    if tier == "quick":
+        base = base[::5]
+    for c in base:
+        if any(v == 1 for k, v in c.items() if k.startswith("virt")):
+            continue
+        n = sum(v for k, v in c.items() if k.startswith("k["))
+        for rot in range(0, n, 2 if tier == "quick" else 1):
+            d = {k: v for k, v in c.items() if not k.startswith("virt") and k != "PANICS"}
+            d["ROT"] = rot
+            cubes.append(d)
+    return dict(name="wmedian-kernel", pkg="internal/phase3", func="Harness_P3_Layered", consts={}, cubes=cubes, enctimeout=200, qtimeout=60, loop=256, validate_cubes=4,
+                bounds="real execWeightedMedian on arbitrary layered graphs (2-4 layers of 1-3 nodes, sampled edge sets, node-list rotations) as cubes; no symbolic dimension: "
+                       "the engine is used as an exhaustive executor of the real code here (queries are decided by the simplifier)")
 
 
 def many_layer_shapes():
